@@ -194,6 +194,8 @@ class LinearPaths:
   def _add_segment_to_merged(self, merged, segment, is_reversed, cut, init,
                              enable_tracking=False, merged_name=None):
     n = segment.name
+    # the length is known also from the sequence, if there is no LN tag
+    seglen = segment.length
     if is_reversed:
       s = gfapy.sequence.rc(segment.sequence)[cut:]
       if enable_tracking:
@@ -206,8 +208,8 @@ class LinearPaths:
         rn = segment.rn
         mp = segment.mp
     if enable_tracking:
-      if not mp and segment.LN:
-        mp = [1, segment.LN]
+      if not mp and seglen:
+        mp = [1, seglen]
       if segment.get("or") is None:
         o = n
       elif is_reversed:
@@ -215,12 +217,13 @@ class LinearPaths:
       else:
         o = segment.get("or")
     if init:
-      merged.sequence = [s]
+      # the merged sequence is a placeholder, if any sequence is a placeholder
+      merged.sequence = s if gfapy.is_placeholder(s) else [s]
       if merged_name:
         merged.name = [merged_name]
       else:
         merged.name = [n]
-      merged.LN = segment.LN
+      merged.LN = seglen
       if enable_tracking:
         merged.rn = rn
         merged.set("or",[o])
@@ -228,7 +231,7 @@ class LinearPaths:
     else:
       if gfapy.is_placeholder(segment.sequence):
         merged.sequence = gfapy.Placeholder()
-      else:
+      elif not gfapy.is_placeholder(merged.sequence):
         merged.sequence.append(s)
       if not merged_name:
         merged.name.append(n)
@@ -242,8 +245,8 @@ class LinearPaths:
               merged.rn += rn
           if mp and merged.mp:
             merged.mp += [pos - cut + merged.LN for pos in mp]
-        if segment.LN:
-          merged.LN += (segment.LN - cut)
+        if seglen:
+          merged.LN += (seglen - cut)
         else:
           merged.LN = None
       elif enable_tracking:
